@@ -168,13 +168,8 @@ def c01_entities(tr, origin, despawned_expected=None):
     return out
 
 
-def c02_values(tr, origin, types=None):
-    """At quiescence all connected peers hold equal values for every (uuid, sync type) present
-    anywhere, provided the type is registered on all of them (caller restricts `types`)."""
+def _values_at(last, origin, types, where):
     out = []
-    if not ended_quiescent(tr):
-        return out
-    last = final_worlds(tr)
     conn = connected_peers(last)
     vals = {}
     for p in conn:
@@ -191,11 +186,34 @@ def c02_values(tr, origin, types=None):
         missing = [p for p in conn if p not in present and any(u in sync_entities(last[p]) for _ in [0])]
         if len(set(present.values())) > 1:
             out.append(dict(signature='values-differ', origin=origin, key=(u, t),
-                            what='at quiescence component %d of uuid %s: %s' % (t, u, ', '.join('peer %d=%s' % (p, v) for p, v in sorted(present.items())))))
+                            what='%s component %d of uuid %s: %s' % (where, t, u, ', '.join('peer %d=%s' % (p, v) for p, v in sorted(present.items())))))
         elif missing:
             out.append(dict(signature='value-missing', origin=origin, key=(u, t),
-                            what='at quiescence component %d of uuid %s present on peers %s but absent on %s' % (t, u, sorted(present), missing)))
+                            what='%s component %d of uuid %s present on peers %s but absent on %s' % (where, t, u, sorted(present), missing)))
     return out
+
+
+def c02_values(tr, origin, types=None):
+    """At quiescence all connected peers hold equal values for every (uuid, sync type) present
+    anywhere, provided the type is registered on all of them (caller restricts `types`)."""
+    if not ended_quiescent(tr):
+        return []
+    return _values_at(final_worlds(tr), origin, types, 'at quiescence')
+
+
+def c02_values_every_quiescent(tr, origin, types=None):
+    """The same at EVERY quiescent point of the run (histories whose premises hold throughout:
+    C02_every_quiescent_state), not only at its end; the first disagreement is reported."""
+    last, k = {}, 0
+    for ev in tr['events']:
+        if ev[0] == 'frame':
+            last[ev[1].peer] = ev[1]
+        elif ev[0] == 'quiescent':
+            k += 1
+            out = _values_at(dict(last), origin, types, 'at quiescent point %d' % k)
+            if out:
+                return out
+    return []
 
 
 def c05_parents(tr, origin):
